@@ -1,4 +1,102 @@
-import Physt.Theorems.C01
+import Physt.Proofs.NDArray
+import Physt.Model.HistND
+/-!
+# C09 — projections are exact marginals; T; accumulate
+
+Array operations are defined index-wise (`Arr.gather`), so the theorems speak about every valid
+index of the result.
+-/
 namespace Physt
-theorem C09_placeholder : True := trivial
+
+/-- **The one array primitive.** Along `axis`, entry `j` of the result is the sum of the source
+    entries `k ∈ src j`, all other coordinates fixed. -/
+theorem C09_gather (a : Arr) (axis newN : Nat) (src : Nat → List Nat) (idx : List Nat)
+    (h : validIdx (Arr.setAt a.shape axis newN) idx = true) :
+    (a.gather axis newN src).get idx
+      = ((src (idx[axis]?.getD 0)).map fun k => a.get (Arr.setAt idx axis k)).sum := by
+  unfold Arr.gather
+  rw [Arr.get_ofFn _ _ _ h]
+
+/-- **Marginal.** Summing over an axis: each entry of the projection is the sum, over all bins
+    `k` of the dropped axis, of the parent entries with `k` inserted at that axis. -/
+theorem C09_marginal (a : Arr) (axis : Nat) (idx : List Nat)
+    (h : validIdx (Arr.removeAt (Arr.setAt a.shape axis 1) axis) idx = true)
+    (h2 : validIdx (Arr.setAt a.shape axis 1) (idx.take axis ++ [0] ++ idx.drop axis) = true)
+    (a.sumAxis axis).get idx
+      = ((List.range (a.shape[axis]?.getD 0)).map fun k =>
+          a.get (Arr.setAt (idx.take axis ++ [0] ++ idx.drop axis) axis k)).sum := by
+  unfold Arr.sumAxis Arr.squeeze
+  have hshape : (a.gather axis 1 fun _ => List.range (a.shape[axis]?.getD 0)).shape = Arr.setAt a.shape axis 1 := rfl
+  rw [hshape, Arr.get_ofFn _ _ _ h, C09_gather _ _ _ _ _ h2]
+
+/-- cumulative sums along exactly one axis: entry `j` is the sum of entries `0..j` -/
+theorem C09_accumulate (a : Arr) (axis : Nat) (idx : List Nat)
+    (h : validIdx (Arr.setAt a.shape axis (a.shape[axis]?.getD 0)) idx = true) :
+    (a.cumsum axis).get idx
+      = ((List.range ((idx[axis]?.getD 0) + 1)).map fun k => a.get (Arr.setAt idx axis k)).sum := by
+  unfold Arr.cumsum
+  exact C09_gather a axis _ _ idx h
+
+/-- **T swaps contents** (2-D): `T[j, i] = h[i, j]`. -/
+theorem C09_T (a : Arr) (n m i j : Nat) (hs : a.shape = [n, m]) (hi : i < n) (hj : j < m) :
+    a.transpose.get [j, i] = a.get [i, j] := by
+  unfold Arr.transpose
+  rw [hs]
+  simp only
+  rw [Arr.get_ofFn _ _ _ (by simp [validIdx, hi, hj])]
+
+/-- `T.T` reads back the original entries -/
+theorem C09_T_involution (a : Arr) (n m i j : Nat) (hs : a.shape = [n, m]) (hi : i < n) (hj : j < m) :
+    a.transpose.transpose.get [i, j] = a.get [i, j] := by
+  have hts : a.transpose.shape = [m, n] := by unfold Arr.transpose; rw [hs]; rfl
+  rw [C09_T a.transpose m n j i hts hj hi, C09_T a n m i j hs hi hj]
+
+theorem filter_range_sorted (p : Nat → Bool) (n : Nat) : ((List.range n).filter p).Pairwise (· < ·) :=
+  List.Pairwise.sublist List.filter_sublist List.pairwise_lt_range
+
+/-- **Kept axes stay in their original order** (with their names and bins), whatever order they
+    were requested in; T swaps bins and names. -/
+theorem C09_order (h r : HN) (axes : List (Sum Int String)) (hr : h.projection axes = .ok r) :
+    ∃ keepAx : List Nat, keepAx.Pairwise (· < ·) ∧ r.axes = keepAx.filterMap (h.axes[·]?) ∧
+      r.names = keepAx.filterMap (h.names[·]?) ∧ r.dtype = h.dtype := by
+  unfold HN.projection at hr
+  simp only [bind, Except.bind, pure, Except.pure, throw, throwThe, MonadExceptOf.throw] at hr
+  cases hm : axes.mapM h.getAxis with
+  | error e => rw [hm] at hr; cases hr
+  | ok ax =>
+    rw [hm] at hr
+    simp only at hr
+    by_cases h1 : ax.isEmpty = true
+    · simp [h1] at hr
+    · by_cases h2 : (ax.eraseDups.length != ax.length) = true
+      · simp [h1, h2] at hr
+      · simp only [h1, h2, if_false, Bool.false_eq_true] at hr
+        cases hr
+        exact ⟨_, filter_range_sorted _ _, rfl, rfl, rfl⟩
+
+/-- **Refusals**: an empty axis list, a duplicate, an index out of range or an unknown name. -/
+theorem C09_refuse (h : HN) :
+    (∃ e, h.projection [] = .error e) ∧
+    (∀ i : Int, (i < 0 ∨ (h.axes.length : Int) ≤ i) → ∃ e, h.projection [.inl i] = .error e) ∧
+    (∀ i : Int, 0 ≤ i → i < h.axes.length → ∃ e, h.projection [.inl i, .inl i] = .error e) := by
+  refine ⟨?_, ?_, ?_⟩
+  · simp [HN.projection, bind, Except.bind, pure, Except.pure, throw, throwThe, MonadExceptOf.throw, List.mapM_nil]
+  · intro i hi
+    have : ¬ (0 ≤ i ∧ i < h.axes.length) := by omega
+    simp [HN.projection, HN.getAxis, List.mapM_cons, List.mapM_nil, bind, Except.bind, pure, Except.pure, throw, throwThe,
+      MonadExceptOf.throw, this]
+  · intro i h0 h1
+    simp [HN.projection, HN.getAxis, List.mapM_cons, List.mapM_nil, bind, Except.bind, pure, Except.pure, throw, throwThe,
+      MonadExceptOf.throw, h0, h1, List.eraseDups_cons]
+
+theorem C09_T_names (h : HN) : h.transpose.axes = h.axes.reverse ∧ h.transpose.names = h.names.reverse ∧
+    h.transpose.transpose.axes = h.axes ∧ h.transpose.transpose.names = h.names ∧ h.transpose.missed = h.missed := by
+  simp [HN.transpose]
+
+/-! Non-vacuity: a 2×3 array -/
+example : (({ shape := [2, 3], data := [1, 2, 3, 4, 5, 6] } : Arr).sumAxis 0).data = [5, 7, 9] ∧
+    (({ shape := [2, 3], data := [1, 2, 3, 4, 5, 6] } : Arr).sumAxis 1).data = [6, 15] ∧
+    (({ shape := [2, 3], data := [1, 2, 3, 4, 5, 6] } : Arr).transpose).data = [1, 4, 2, 5, 3, 6] ∧
+    (({ shape := [2, 3], data := [1, 2, 3, 4, 5, 6] } : Arr).cumsum 1).data = [1, 3, 6, 4, 9, 15] := by decide +kernel
+
 end Physt
